@@ -751,7 +751,7 @@ type zeroWorld struct {
 func newZeroWorld(variant string) (*zeroWorld, error) {
 	ctx := context.Background()
 	w := &zeroWorld{variant: variant}
-	empty := variant == "empty"
+	empty := variant == "empty" || variant == "emptytext"
 	s := NewServer(&Implementation{Name: "s", Version: "1"}, &ServerOptions{
 		CompletionHandler: func(context.Context, *CompleteRequest) (*CompleteResult, error) {
 			r := &CompleteResult{}
@@ -779,6 +779,9 @@ func newZeroWorld(variant string) (*zeroWorld, error) {
 		r := &ReadResourceResult{}
 		if empty {
 			r.Contents = []*ResourceContents{}
+		}
+		if variant == "emptytext" {
+			r.Contents = []*ResourceContents{{}} // an empty text file: uri and mimeType are filled in by the SDK
 		}
 		return r, nil
 	})
@@ -1074,7 +1077,9 @@ func writtenTok(b []byte) string {
 	if len(b) == 0 {
 		return "nothing"
 	}
-	if b[len(b)-1] != '\n' || bytes.ContainsAny(b[:len(b)-1], "\r\n") {
+	// one compact payload + LF: no raw line break inside, no blank at either end (what the framing
+	// theorems assume of a payload is checked here on every frame the implementation writes)
+	if b[len(b)-1] != '\n' || bytes.ContainsAny(b[:len(b)-1], "\r\n") || len(bytes.TrimSpace(b[:len(b)-1])) != len(b)-1 {
 		return "badframe x" + hx(b)
 	}
 	v, err := parseJSON(b[:len(b)-1])
@@ -1170,6 +1175,29 @@ func (w *wireWorld) apply(op string) (obs string) {
 			return "marshal-error"
 		}
 		return tokJSON(data)
+	case "c.res":
+		uri, ok1 := p.str()
+		mime, ok2 := p.str()
+		text, ok3 := p.str()
+		rc := &ResourceContents{URI: uri, MIMEType: mime, Text: text}
+		if p.peek() == "-" {
+			p.next()
+		} else {
+			b, ok := p.b64()
+			if !ok {
+				return "bad-op"
+			}
+			if b == nil {
+				b = []byte{}
+			}
+			rc.Blob = b
+		}
+		m, ok4 := p.meta()
+		if !(ok1 && ok2 && ok3 && ok4) {
+			return "bad-op"
+		}
+		rc.Meta = m
+		return marshalTok(rc)
 	case "c.rt":
 		ctx := p.next()
 		cs, ok := p.contents()
@@ -1853,6 +1881,7 @@ func TestVerifWireMcp(t *testing.T) {
 				step("r.zero "+m+" "+variant, "zero:"+m, "variant:"+variant)
 			}
 		}
+		step("r.zero resources/read emptytext", "zero:resources/read", "variant:emptytext")
 		// every type of the method tables at least once per run
 		step = newCase("types")
 		for _, name := range names {
@@ -1878,6 +1907,20 @@ func TestVerifWireMcp(t *testing.T) {
 			for i := 0; i < 3; i++ {
 				cv := g.content(allKinds, 2)
 				step("c.enc "+contentTok(cv), contentKindTag(cv))
+			}
+			{
+				rc := g.resourceContents()
+				blob := "-"
+				if rc.Blob != nil {
+					blob = "s" + hxs(b64(rc.Blob))
+				}
+				tag := "res:text"
+				if rc.Blob != nil {
+					tag = "res:blob"
+				} else if rc.Text == "" {
+					tag = "res:empty-text"
+				}
+				step(fmt.Sprintf("c.res s%s s%s s%s %s %s", hxs(rc.URI), hxs(rc.MIMEType), hxs(rc.Text), blob, metaTok(rc.Meta)), tag)
 			}
 			for i := 0; i < 3; i++ {
 				ctx := ctxNames[r.Intn(len(ctxNames))]
